@@ -49,6 +49,9 @@ type lifeCase struct {
 	// WriteDelayMs: every server-side Write on an accepted connection is delayed by this much (slow peer / congested link),
 	// so a reply can still be on its way out when Shutdown polls the connections
 	WriteDelayMs int `json:"write_delay_ms,omitempty"`
+	// WriteTimeoutMs: Server.WriteTimeout (0: 3 s). A short value combined with slow handlers checks that the time a handler
+	// takes does not eat into the time allowed for writing its reply.
+	WriteTimeoutMs int `json:"write_timeout_ms,omitempty"`
 }
 
 // slowListener wraps accepted connections so that Write is delayed.
@@ -192,7 +195,19 @@ func observeClosed(conn net.Conn, ceiling time.Duration) (bool, []byte) {
 	}
 }
 
+// runLife: scenarios with a short server write timeout are the only ones in which machine load could turn into a failure
+// (a scheduling hiccup between SetWriteDeadline and Write): a failure there is reported only if it repeats three times.
 func runLife(c lifeCase) harness.Result {
+	r := runLifeOnce(c)
+	if r.Err != nil && c.WriteTimeoutMs > 0 && c.WriteDelayMs == 0 {
+		for i := 0; i < 2 && r.Err != nil; i++ {
+			r = runLifeOnce(c)
+		}
+	}
+	return r
+}
+
+func runLifeOnce(c lifeCase) harness.Result {
 	ev := &events{accepts: map[string][]uint64{}, closes: map[string]int{}, started: map[string]int{}, served: make(chan string, 1), rejectIx: map[int]bool{}}
 	for _, r := range c.Reject {
 		ev.rejectIx[r] = true
@@ -202,6 +217,9 @@ func runLife(c lifeCase) harness.Result {
 	}
 	h := &handler{ev: ev, dev: device.New(c.Seed)}
 	s := &server.Server{ReadTimeout: 10 * time.Millisecond, WriteTimeout: 3 * time.Second}
+	if c.WriteTimeoutMs > 0 && c.WriteDelayMs == 0 {
+		s.WriteTimeout = time.Duration(c.WriteTimeoutMs) * time.Millisecond
+	}
 	listener, err := net.Listen("tcp", "127.0.0.1:0")
 	if err != nil {
 		return harness.Fail("harness: listen: %v", err)
@@ -593,6 +611,15 @@ func genLife(t *rapid.T) lifeCase {
 			c.WriteDelayMs = rapid.SampledFrom([]int{60, 75, 120}).Draw(t, "write_delay")
 		}
 	}
+	if c.WriteDelayMs == 0 && rapid.IntRange(0, 3).Draw(t, "short_write_timeout") == 0 {
+		// handlers of 60/80 ms against a 50 ms write timeout
+		c.WriteTimeoutMs = 50
+		for i := range c.Steps {
+			if (c.Steps[i].Op == "request" || c.Steps[i].Op == "inflight") && i%2 == 0 {
+				c.Steps[i].DelayMs = rapid.SampledFrom([]int{60, 80}).Draw(t, "slow_handler")
+			}
+		}
+	}
 	return c
 }
 
@@ -622,7 +649,8 @@ func TestCallbackCombinations(t *testing.T) {
 				c.WriteDelayMs = 70
 				c.Steps = append(c.Steps, step{Op: "inflight", Client: 0, DelayMs: 40}, step{Op: "shutdown"})
 			} else {
-				c.Steps = append(c.Steps, step{Op: "cancel"})
+				c.WriteTimeoutMs = 50
+				c.Steps = append(c.Steps, step{Op: "request", Client: 0, DelayMs: 80}, step{Op: "cancel"})
 			}
 			if !chkLife.Eval(t, c) {
 				return
